@@ -43,9 +43,9 @@ var reproFunc = bigslice.Func(func(materialize bool) bigslice.Slice {
 func reproMain() {
 	vsys.Quiet()
 	vsys.FastRetries()
-	// Order: the local executor without the pragma comes last, because there the
-	// panic is not recovered and kills this process (exec/local.go runs the
-	// zero-column path of bufferOutput before its recover).
+	// Order: the local executor without the pragma comes last, because on trees
+	// before /repo commit 5b05499 the panic was not recovered there and killed
+	// this process (zero-column path of bufferOutput ran before its recover).
 	for _, executor := range []string{"cluster", "local"} {
 		for _, materialize := range []bool{true, false} {
 			var sess *exec.Session
